@@ -76,7 +76,24 @@ static void dest_append(my_dest *d, size_t n)
 }
 static void d_init(j_compress_ptr c) { my_dest *d = (my_dest *)c->dest; d->len = 0; d->pub.next_output_byte = d->buf; d->pub.free_in_buffer = d->bufsize; }
 static boolean d_empty(j_compress_ptr c) { my_dest *d = (my_dest *)c->dest; dest_append(d, d->bufsize); d->pub.next_output_byte = d->buf; d->pub.free_in_buffer = d->bufsize; return TRUE; }
-static void d_term(j_compress_ptr c) { my_dest *d = (my_dest *)c->dest; dest_append(d, d->bufsize - d->pub.free_in_buffer); }
+/* guard zones behind every alloc_small block (pool slack would hide small overruns) */
+#define GUARD 128
+static void *(*orig_alloc_small) (j_common_ptr, int, size_t);
+static struct { unsigned char *p; size_t n; } guards[2048]; static int nguards, guard_bad, guards_on;
+static void *guard_alloc_small(j_common_ptr c, int pool, size_t size)
+{
+  unsigned char *p = (unsigned char *)(*orig_alloc_small) (c, pool, size + GUARD);
+  memset(p + size, 0xA5, GUARD);
+  if (pool == JPOOL_IMAGE && nguards < 2048) { guards[nguards].p = p; guards[nguards].n = size; nguards++; }
+  return p;
+}
+static void check_guards(void)
+{
+  int i; size_t k;
+  for (i = 0; i < nguards; i++) for (k = 0; k < GUARD; k++) if (guards[i].p[guards[i].n + k] != 0xA5) { guard_bad++; break; }
+  nguards = 0;
+}
+static void d_term(j_compress_ptr c) { my_dest *d = (my_dest *)c->dest; dest_append(d, d->bufsize - d->pub.free_in_buffer); if (guards_on) check_guards(); }
 static void set_dest(j_compress_ptr c, size_t bufsize)
 {
   free(dest.buf); dest.bufsize = bufsize; dest.buf = malloc(bufsize);
@@ -826,6 +843,48 @@ static void do_cs(char *p)
   jpeg_destroy_compress(&cc);
 }
 
+/* ref NBX NBY OPT | c0 c1 ... : AC refinement scan over NBX x NBY blocks through jpeg_write_coefficients; block i has
+   its first ci AC coefficients (zigzag order) = 2 (already nonzero at the refinement: one correction bit each); ci >= 100
+   adds a coefficient of magnitude 1 (newly nonzero) after (ci - 100) such coefficients.  alloc_small is wrapped with
+   guard zones, checked before the image pool is released. */
+static const int zz_nat[64] = { 0, 1, 8, 16, 9, 2, 3, 10, 17, 24, 32, 25, 18, 11, 4, 5, 12, 19, 26, 33, 40, 48, 41, 34, 27, 20, 13, 6, 7, 14, 21,
+  28, 35, 42, 49, 56, 57, 50, 43, 36, 29, 22, 15, 23, 30, 37, 44, 51, 58, 59, 52, 45, 38, 31, 39, 46, 53, 60, 61, 54, 47, 55, 62, 63 };
+static void do_ref(char *p)
+{
+  int nbx = (int)nextl(&p), nby = (int)nextl(&p), opt = (int)nextl(&p), bx, by, k;
+  static int counts[4096]; int n = 0; jvirt_barray_ptr arr[1]; static jpeg_scan_info sc[3];
+  p = skip_bar(p);
+  while (n < 4096) { while (*p == ' ') p++; if (*p == 0 || *p == '\n') break; counts[n++] = (int)strtol(p, &p, 10); }
+  guard_bad = 0; nguards = 0;
+  fresh_compress();
+  if (setjmp(jb)) { guards_on = 0; printf("err %s # -\n", err_name(last_err)); jpeg_destroy_compress(&cc); return; }
+  orig_alloc_small = cc.mem->alloc_small; cc.mem->alloc_small = guard_alloc_small; guards_on = 1;
+  set_dest(&cc, 4096);
+  cc.image_width = nbx * 8; cc.image_height = nby * 8; cc.input_components = 1; cc.in_color_space = JCS_GRAYSCALE;
+  jpeg_set_defaults(&cc);
+  sc[0].comps_in_scan = 1; sc[0].component_index[0] = 0; sc[0].Ss = 0; sc[0].Se = 0; sc[0].Ah = 0; sc[0].Al = 0;
+  sc[1] = sc[0]; sc[1].Ss = 1; sc[1].Se = 63; sc[1].Al = 1;
+  sc[2] = sc[1]; sc[2].Ah = 1; sc[2].Al = 0;
+  cc.scan_info = sc; cc.num_scans = 3; cc.optimize_coding = (boolean)opt;
+  arr[0] = (*cc.mem->request_virt_barray) ((j_common_ptr)&cc, JPOOL_IMAGE, TRUE, nbx, nby, 1);
+  jpeg_write_coefficients(&cc, arr);
+  for (by = 0; by < nby; by++) {
+    JBLOCKARRAY ba = (*cc.mem->access_virt_barray) ((j_common_ptr)&cc, arr[0], by, 1, TRUE);
+    for (bx = 0; bx < nbx; bx++) {
+      int c = (by * nbx + bx) < n ? counts[by * nbx + bx] : 0, extra = 0;
+      if (c >= 100) { c -= 100; extra = 1; }
+      if (c > 63) c = 63;
+      for (k = 1; k <= c; k++) ba[0][bx][zz_nat[k]] = (JCOEF)((k & 1) ? 2 : -3);
+      if (extra && c < 63) ba[0][bx][zz_nat[c + 1]] = 1;
+    }
+  }
+  jpeg_finish_compress(&cc);
+  guards_on = 0;
+  jpeg_destroy_compress(&cc);
+  printf("ok");
+  { char ob[256]; oracle(dest.data, dest.len, 0, ob, sizeof(ob)); printf(" # %s exp=%dx%dx1 guard=%d\n", ob, nbx * 8, nby * 8, guard_bad); }
+}
+
 /* ------------------------------------------------------------------ quant tables */
 static void do_qt(char *p)
 {
@@ -915,6 +974,7 @@ int main(void)
     else if (!strcmp(cmd, "tn")) do_tn(p);
     else if (!strcmp(cmd, "wt")) do_wt(p);
     else if (!strcmp(cmd, "qs")) do_qs(p);
+    else if (!strcmp(cmd, "ref")) do_ref(p);
     else if (!strcmp(cmd, "cs")) do_cs(p);
     else if (!strcmp(cmd, "wm")) do_wm(p);
     else if (!strcmp(cmd, "blk")) do_blk(p);
